@@ -613,6 +613,11 @@ func Check(r *vrep.Report, callsV []uni.Call, tsos []uni.TSOEvent, recs []*work.
 		// statusTTL: ttl of the primary lock as the newest CheckTxnStatus response reported it (live lock); hasStatusTTL
 		statusTTL    uint64
 		hasStatusTTL bool
+		// pessOnly: a CheckTxnStatus issued for a *pessimistic* lock was answered LockNotExistDoNothing /
+		// TTLExpirePessimisticRollback / primary-mismatch.  That is no outcome of the transaction (the lock's primary
+		// pointer may be stale and the transaction alive under another primary): it licenses the pessimistic rollback
+		// of that lock, never a ResolveLock / BatchRollback of the transaction
+		pessOnly bool
 	}
 	st := map[ck]*status{}
 	get := func(c int, t uint64) *status {
@@ -698,6 +703,16 @@ func Check(r *vrep.Report, callsV []uni.Call, tsos []uni.TSOEvent, recs []*work.
 				s := get(c.Client, req.LockTs)
 				if resp.Error != nil {
 					noteKeyErr(c.Client, resp.Error)
+					if resp.Error.PrimaryMismatch != nil && req.ResolvingPessimisticLock {
+						s.pessOnly = true
+					}
+					break
+				}
+				if resp.CommitVersion == 0 && resp.LockTtl == 0 && (resp.Action == kvrpcpb.Action_LockNotExistDoNothing || resp.Action == kvrpcpb.Action_TTLExpirePessimisticRollback) {
+					// the store did nothing to / only released the pessimistic lock on the key it was asked about and
+					// reports no outcome for the transaction
+					s.pessOnly = true
+					r.Count("rule4_nonfinal_status_answers", 1)
 					break
 				}
 				if resp.CommitVersion == 0 && resp.LockTtl != 0 {
@@ -816,7 +831,7 @@ func Check(r *vrep.Report, callsV []uni.Call, tsos []uni.TSOEvent, recs []*work.
 				break
 			}
 			r.Count("rule5_pessimistic_rollback_evaluated", 1)
-			if s := get(c.Client, req.StartVersion); !s.rollback && len(s.commits) == 0 {
+			if s := get(c.Client, req.StartVersion); !s.rollback && !s.pessOnly && len(s.commits) == 0 {
 				viol("5:pessimistic-rollback-of-live-lock", fmt.Sprintf("client %d: PessimisticRollback of txn %d (owned by client %d) without a status response saying expired or finished", c.Client, req.StartVersion, v.owner), c)
 			}
 		case *kvrpcpb.BatchRollbackRequest:
